@@ -596,12 +596,21 @@ class BaseProject(object, metaclass=ABCMeta):
 
         # 3. Allocate ready tasks to free workers and facilities
         target_workplace_id_list = [wp.ID for wp in self.organization.workplace_list]
+        placed_component_id_set = set()  # components (re)placed in this step
 
         for task in ready_and_working_task_list:
             if task.target_component is not None:
                 # 3-1. Set target component of workplace if target component is ready
+                # (at most once per step, and not after one of its tasks has been given resources)
                 component = task.target_component
-                if component.is_ready():
+                if (
+                    component.is_ready()
+                    and component.ID not in placed_component_id_set
+                    and not any(
+                        len(t.allocated_worker_list) > 0
+                        for t in component.targeted_task_list
+                    )
+                ):
                     candidate_workplace_list = task.allocated_workplace_list
                     candidate_workplace_list = sort_workplace_list(
                         candidate_workplace_list,
@@ -649,6 +658,7 @@ class BaseProject(object, metaclass=ABCMeta):
                                 # 3-1-1-2. regsister
                                 component.set_placed_workplace(workplace)
                                 workplace.set_placed_component(component)
+                                placed_component_id_set.add(component.ID)
                                 break
 
             if not task.auto_task:
